@@ -95,7 +95,7 @@ pub fn def() -> PropDef {
         parts: |tier| {
             vec![part(
                 "backoff",
-                tier.pick(30_000, 1_000_000),
+                tier.pick(30_000, 30_000_000),
                 (dur_strategy(), dur_strategy(), prop_oneof![Just(None), Just(Some(0u32)), Just(Some(1)), Just(Some(10)), Just(Some(u32::MAX)), (0u32..300).prop_map(Some)], 0u16..200)
                     .prop_map(|(initial, max, limit, take)| Case { initial, max, limit, take }),
                 check,
